@@ -584,5 +584,5 @@ CHECKS['C03'].update({
             "pattern text begins with a written dot or a leaky extended group, for every pattern text without backslash / bracket / drive-like beginning; applied_star_a "
             "(all hypotheses discharged for `*a`), nonvacuous; path mode: C03_upper_path_win / C03_dotdir_path_win (a hidden piece or `.`/`..` after EITHER separator), "
             "C03winlower: C03_read_sandwich_win / _forcewin (Must(normalised s) -> FORCEWIN regex accepts s -> May(normalised s), every subject — the statement the "
-            "search windows-rules-sandwich evaluates on the real code), C03_lower_win (fnmatch, written dot first: exactly the documented language). " + CHECKS['C03']['text'],
+            "search windows-rules-sandwich evaluates on the real code), C03_lower_win (fnmatch, written dot first: exactly the documented language), C03_matchbase_win (the implicit MATCHBASE prefix never consumes a hidden piece after either separator). " + CHECKS['C03']['text'],
 })
